@@ -15,7 +15,7 @@ def main():
         if pid in meta.get("hold", []):
             continue
         m = json.load(open(f))
-        meta["checks"][pid] = {"text": m["text"], "note": m["note"], "technique": m.get("technique", "explicit-state bounded model checking of the implementation against a reference model")}
+        meta["checks"][pid] = {"text": m["text"] + ((" " + m["added"]) if m.get("added") else ""), "note": m["note"], "technique": m.get("technique", "explicit-state bounded model checking of the implementation against a reference model")}
     props = [json.loads(l) for l in open(os.path.join(HERE, "properties.jsonl"))]
     ids = [p["id"] for p in props]
     checks = []
